@@ -119,6 +119,7 @@ def items(tier):
     out = []
     for sp in deep_nesting_specs():
         out.append((sp, {"rule": "TSLACK", "max_time": 14}))
+    out.append((F.dock_spec(), {"rule": "TSLACK", "max_time": 24}))
     for cap, s0, s1 in ((1.0e10, 4.0e9, 6.0e9 + 3), (1.0e10, 4.0e9, 6.0e9), (1.0, 1.0, 0.0), (1.0, 0.0, 0.0), (0.3, 0.1, 0.2), (0.3, 0.1, 0.2 + 1e-9)):
         names = ["T0", "T1"]
         full = {nm: 1.0 for nm in names}
